@@ -214,11 +214,21 @@ func genC18(t *rapid.T) hCase {
 		}
 	}
 	cs.Ops = append(pre, cs.Ops...)
+	// a postlude in two thirds of the histories: failing peers recover and a retry tick follows
+	// (the "failed transmission gives its copy back" clause needs a success after a failure)
+	if rapid.IntRange(0, 2).Draw(t, "post") > 0 {
+		for p := 0; p < cs.NPeers; p++ {
+			if rapid.IntRange(0, 3).Draw(t, "recover") > 0 {
+				cs.Ops = append(cs.Ops, hOp{Op: "script", A: p, Flag: true})
+			}
+		}
+		cs.Ops = append(cs.Ops, hOp{Op: "tick"}, hOp{Op: "tick"})
+	}
 	return cs
 }
 
 func TestVerifC18Histories(t *testing.T) {
-	u := vk.Unit{Property: "C18", Name: "c18.histories", Quick: 400, Thorough: 16000,
+	u := vk.Unit{Property: "C18", Name: "c18.histories", Quick: 900, Thorough: 16000,
 		Rule: "histories over {submit, receive with k copies (binary), peer appears/disappears, sends to a peer fail/succeed - including sends to the directly connected destination -, retry tick} for budgets L = 1..8 and 1..6 peers, under spray-and-wait and binary spray; oracle = copy-budget ledger fed only by what the scripted peers observe (bytes and outcomes): vanilla: successful transmissions to non-destination peers <= L-1 at all times and, once all peers are connected and succeed, exactly min(L-1, peers); binary: every transmitted copy announces half (rounded down) of the copies held, also after a failed transmission, and a holder of one copy transmits only to the destination; non-trivial = a failed transmission followed by a successful one; distinct by case hash"}
 	vk.Check(t, u, genC18, c18Body)
 	_ = fmt.Sprint
